@@ -1039,6 +1039,10 @@ class AstEval:
             return is_and
         if isinstance(arg, ast.UnaryOp) and isinstance(arg.op, ast.Not):
             return not await self.aeval_test(arg.operand)
+        if isinstance(arg, ast.Compare) and len(arg.ops) > 1:
+            # a chain that stopped at a false comparison has tested that result already
+            val, known_false = await self.compare_chain(arg)
+            return False if known_false else bool(val)
         return bool(await self.aeval(arg))
 
     async def ast_if(self, arg):
@@ -1697,6 +1701,10 @@ class AstEval:
 
     async def ast_compare(self, arg):
         """Evaluate comparison operators by calling function based on class."""
+        return (await self.compare_chain(arg))[0]
+
+    async def compare_chain(self, arg):
+        """Evaluate a comparison chain; also tell whether the result was already found to be false."""
         left = await self.aeval(arg.left)
         last = len(arg.ops) - 1
         val = True
@@ -1704,10 +1712,12 @@ class AstEval:
             right = await self.aeval(right_ast)
             name = "ast_cmpop_" + cmp_op.__class__.__name__.lower()
             val = await getattr(self, name, self.ast_not_implemented)(left, right)
-            if idx == last or not val:
-                return val
+            if idx == last:
+                return val, False
+            if not val:
+                return val, True
             left = right
-        return val
+        return val, False
 
     async def ast_cmpop_eq(self, val0, val1):
         """Evaluate comparison operator: ==."""
